@@ -1337,6 +1337,17 @@ impl DcpsDomainParticipant {
             .any(|x| subscription_handle.as_ref() == &x.key().value)
         {
             data_writer.remove_matched_subscription(&subscription_handle);
+            data_writer
+                .transport_writer
+                .delete_matched_reader(Guid::from(<[u8; 16]>::from(subscription_handle)));
+            if data_writer
+                .transport_writer
+                .is_change_acknowledged(data_writer.last_change_sequence_number)
+            {
+                for n in data_writer.wait_for_acknowledgments_notification.drain(..) {
+                    n.send(Ok(()));
+                }
+            }
 
             data_writer
                 .status_condition
@@ -2679,6 +2690,14 @@ impl DcpsDomainParticipant {
                 data_writer
                     .matched_subscription_list
                     .retain(|subscription| subscription.key.value[..12] != prefix);
+                if data_writer
+                    .transport_writer
+                    .is_change_acknowledged(data_writer.last_change_sequence_number)
+                {
+                    for n in data_writer.wait_for_acknowledgments_notification.drain(..) {
+                        n.send(Ok(()));
+                    }
+                }
             }
         }
 
